@@ -1,5 +1,6 @@
 use crate::evidence::{Report, Tier};
 
+pub mod bitreader;
 pub mod deblock;
 pub mod yuv;
 
@@ -7,6 +8,7 @@ pub fn run(id: &str, tier: Tier) -> Option<Report> {
     Some(match id {
         "C09" => deblock::run_c09(tier),
         "C16" => deblock::run_c16(tier),
+        "C14" => bitreader::run(tier),
         "C07" => yuv::run_c07(tier),
         "C08" => yuv::run_c08(tier),
         _ => return None,
